@@ -6,7 +6,8 @@ import KrroodVerif.Props.C03
 `harness/translate/c03_translate.py` regenerates `Translated.shape : IterShape` from the CURRENT Python AST on every
 run; the kernel then re-checks, by `decide`,
 
-* `Translated.shape = Dom.shape ∨ Translated.shape = Dom.shapeIdx` (the code is one of the two hand-written machines),
+* `Translated.shape = Dom.shape ∨ Translated.shape = Dom.shapeIdx ∨ Translated.shape = Dom.shapeSnap` (the code is one of
+  the two hand-written machines, or the snapshot variant of today's),
 * `IterOk Translated.shape` (and `IterFullOk Translated.shape` once F-C03-1 is recorded as fixed).
 
 This file turns these finite facts into statements about ALL domains, query families and schedules:
@@ -18,6 +19,7 @@ This file turns these finite facts into statements about ALL domains, query fami
 * `C03_shape_full` — `IterFullOk s →` EVERY schedule meets the specification (`C03_full` is its instance `shapeIdx`);
 * `C03_shape_cex` — each way of leaving `IterOk` that has been seen (seeded changes C02-m2, C01-r2m2, C03-m1, C09-r3m2,
   C10-r2m1, C03-r4m1, C09-r5m1, C11-r5m2) breaks the specification on a NON-overlapping schedule (tests by `decide`);
+* `C03_shape_handed_out_cached` — for `IterOk` shapes a handed-out value is cached, so `__getitem__` never pulls for it;
 * `C03_shape_ok_tight` — over all 288 shapes: `IterOk` fails exactly where one of three fixed non-overlapping witness
   schedules fails (apart from `truth = sourceOnly`, which this machine cannot tell from `valuesOrSource`).
 -/
@@ -258,5 +260,26 @@ theorem C03_shape_ok_tight (s : IterShape) (ht : s.truth ≠ .sourceOnly) :
   · cases p <;> cases co <;> cases cw <;> cases so <;> cases ae <;> decide
   · cases p <;> cases co <;> cases cw <;> cases so <;> cases ae <;> decide
   · exact absurd rfl ht
+
+/-! ## `__getitem__` / `__contains__` never read the source for a value the engine has in hand -/
+
+/-- **C03_shape_handed_out_cached** (every `IterOk` shape, every state and cursor): a value handed out by one `next()` is
+in the cache when the caller gets it, and nothing is ever removed from the cache. So `HashedIterable.__getitem__` (the only
+other reader of the shared source: it pulls only for an id that is NOT cached; its body is checked by the translator) never
+pulls for a value the engine has in hand, and the schedule machine may ignore it. -/
+theorem C03_shape_handed_out_cached (s : IterShape) (hok : IterOk s) (d : SDom) (c : SCursor) :
+    (∀ x, (stepS s d c).2.2 = .val x → x ∈ (stepS s d c).1.cache) ∧
+    (∀ y, y ∈ d.cache → y ∈ (stepS s d c).1.cache) := by
+  obtain ⟨cache, rest, rel⟩ := d
+  have hm : ∀ (i : Nat) (x : Nat), cache[i]? = some x → x ∈ cache := fun i x h => List.mem_of_getElem? h
+  rcases IterOk_cases hok with rfl | rfl | rfl <;> cases c <;>
+    simp only [stepS, shape, shapeSnap, shapeIdx, truthy, afterReplay, enterPull, pullStep, emit, finish, idxPull] <;>
+    (repeat' split) <;> simp_all <;> grind
+
+/-- necessity: with `cacheWhen = afterYield` the value in the caller's hand is NOT cached (test by `decide`) -/
+example :
+    (stepS { shape with cacheWhen := .afterYield } { cache := [], rest := [7, 8], released := false } .fresh).2.2 = .val 7 ∧
+    (stepS { shape with cacheWhen := .afterYield } { cache := [], rest := [7, 8], released := false } .fresh).1.cache = [] ∧
+    (stepS shape { cache := [], rest := [7, 8], released := false } .fresh).1.cache = [7] := by decide
 
 end KrroodVerif.Dom
